@@ -18,6 +18,7 @@ pub struct DetectOpts {
     pub focus: String,
     pub out: String,
     pub replay: Option<String>,
+    pub full_every: usize,
 }
 
 fn case_json(kind: &str, bytes: &[u8], s: &NormalizerSettings) -> serde_json::Value {
@@ -324,6 +325,7 @@ pub fn run(o: &DetectOpts) -> serde_json::Value {
     let mut nontrivial = 0u64;
     let focus = o.focus.as_str();
     let mut extra_runs = 0u64;
+    let mut full_runs = 0u64;
 
     for (idx, c) in cases.iter().enumerate() {
         *kinds.entry(c.kind.clone()).or_insert(0) += 1;
@@ -369,6 +371,22 @@ pub fn run(o: &DetectOpts) -> serde_json::Value {
             disagreements.push(json!({
                 "index": idx, "case": case_json(&c.kind, &c.bytes, &c.settings),
                 "real": real_lines, "model": model_lines }));
+        }
+        // end-to-end: every `full_every`-th small case also through the model in which the mess detector, the coherence
+        // scan, the script layers, the Jaro score and the merge are the models too
+        if o.full_every > 0 && idx % o.full_every == 0 && c.bytes.len() <= 3000 && c.settings.steps >= 1 && match_count(&real_lines) <= 20 {
+            full_runs += 1;
+            let full_lines = drv.detect_full(&c.bytes, &c.settings);
+            if Driver::died(&full_lines) {
+                let cv = std::mem::take(&mut drv.contract_violations);
+                drv = Driver::start(&o.driver);
+                drv.contract_violations = cv;
+            }
+            if full_lines != real_lines {
+                disagreements.push(json!({
+                    "index": idx, "what": "end-to-end model (Detect + Md + Cd + Layers + Jaro)", "case": case_json(&c.kind, &c.bytes, &c.settings),
+                    "real": real_lines, "model": full_lines }));
+            }
         }
         if samples.len() < 6 && (idx % 7 == 3 || o.replay.is_some()) {
             samples.push(json!({"case": {"kind": c.kind, "len": c.bytes.len(), "bytes": short(&c.bytes, 48), "settings": settings_json(&c.settings)},
@@ -423,6 +441,10 @@ pub fn run(o: &DetectOpts) -> serde_json::Value {
                 if wf {
                     found.push(Found { prop: "C02", what: format!("from_bytes panicked: {}", p), known: None });
                 }
+                // a window whose product overflows usize covers the input: the result must be that of (1, len) -- C13
+                if c.settings.steps >= 1 {
+                    found.extend(check_c13_window(&c.bytes, &c.settings, &real_lines, (1, c.bytes.len())));
+                }
             }
         }
         if let Outcome::Ok(_) = &real {
@@ -465,7 +487,7 @@ pub fn run(o: &DetectOpts) -> serde_json::Value {
         "level": "detect", "seed": o.seed, "focus": o.focus, "evaluations": cases.len(),
         "distinct_nontrivial": nontrivial, "kinds": kinds, "branches": branches, "sizes": size_hist,
         "disagreements": disagreements, "violations": violations,
-        "contract_violations": drv.contract_violations, "oracle_queries": drv.query_kinds,
+        "end_to_end_runs": full_runs, "contract_violations": drv.contract_violations, "oracle_queries": drv.query_kinds,
         "restricted_reruns": extra_runs, "samples": samples,
     });
     std::fs::write(&o.out, serde_json::to_string_pretty(&rep).unwrap()).expect("write report");
